@@ -130,6 +130,10 @@ func errClass(err error) string {
 }
 
 func setEndian(le bool) {
+	// VERIF_NATIVE_ENDIAN=1: the byte order is left as the library determined it itself for this build
+	if os.Getenv("VERIF_NATIVE_ENDIAN") == "1" {
+		return
+	}
 	if le {
 		seccomp.SetNativeEndianVerif(binary.LittleEndian)
 	} else {
